@@ -1,0 +1,95 @@
+//go:build verif
+
+package reassembly
+
+import (
+	"sort"
+	"sync"
+	"time"
+)
+
+// Hooks for the deterministic-simulation harness in /verif. Compiled only with
+// -tags verif; see verif_off.go for the no-op variants.
+
+// VerifYield, when set, is called in front of every lock acquisition of the
+// package (site identifies the call site; exactly one of m, rw is non-nil)
+// and at lock-free scheduling points (both nil).
+var VerifYield func(site int, m *sync.Mutex, rw *sync.RWMutex, write bool)
+
+// VerifOrder, when set, receives the sorted keys of the connections a flush is
+// about to visit and returns the visiting order as a permutation of indices.
+var VerifOrder func(keys []string) []int
+
+func verifYieldM(site int, m *sync.Mutex) {
+	if VerifYield != nil {
+		VerifYield(site, m, nil, true)
+	}
+}
+
+func verifYieldRW(site int, rw *sync.RWMutex, write bool) {
+	if VerifYield != nil {
+		VerifYield(site, nil, rw, write)
+	}
+}
+
+func verifPoint(site int) {
+	if VerifYield != nil {
+		VerifYield(site, nil, nil, false)
+	}
+}
+
+func verifOrderConns(conns []*connection) []*connection {
+	if VerifOrder == nil {
+		return conns
+	}
+	sort.Slice(conns, func(i, j int) bool { return conns[i].key.String() < conns[j].key.String() })
+	keys := make([]string, len(conns))
+	for i, c := range conns {
+		keys[i] = c.key.String()
+	}
+	perm := VerifOrder(keys)
+	if len(perm) != len(conns) {
+		return conns
+	}
+	out := make([]*connection, len(conns))
+	for i, j := range perm {
+		out[i] = conns[j]
+	}
+	return out
+}
+
+// VerifPagesUsed reports the pages currently taken from this assembler's cache.
+func (a *Assembler) VerifPagesUsed() int { return a.pc.used }
+
+// VerifStats reports the number of live connections, free connection objects
+// and allocated connection objects of the pool.
+func (p *StreamPool) VerifStats() (conns, free, allocated int) {
+	p.mu.RLock()
+	defer p.mu.RUnlock()
+	for _, a := range p.all {
+		allocated += len(a)
+	}
+	return len(p.conns), len(p.free), allocated
+}
+
+// VerifQueued reports, without taking connection locks (single-goroutine use
+// only), the largest per-direction page count, the total number of queued
+// out-of-order pages, and the capture time of the oldest head-of-queue page.
+func (p *StreamPool) VerifQueued() (maxPages, queuedPages int, oldestHead time.Time, any bool) {
+	p.mu.RLock()
+	defer p.mu.RUnlock()
+	for _, c := range p.conns {
+		for _, h := range []*halfconnection{&c.c2s, &c.s2c} {
+			if h.pages > maxPages {
+				maxPages = h.pages
+			}
+			for pg := h.first; pg != nil; pg = pg.next {
+				queuedPages++
+			}
+			if h.first != nil && !h.closed && (!any || h.first.seen.Before(oldestHead)) {
+				oldestHead, any = h.first.seen, true
+			}
+		}
+	}
+	return
+}
